@@ -36,10 +36,10 @@ P = {
              text="Theorems c08_infer_restores / c08_infer_then_check: on a consistent graph with any subset of erasable annotations erased, inference returns normally, every child reachable from an Input carries exactly the truth and the type check passes; DFS completeness of the work-list on every graph; model pinned by inference correspondence on random consistent graphs with erasure subsets.",
              note="", ref="6 C08"),
  "C09": dict(tech="Coq proof (check_types = Ok true <-> every edge consistent; never Ok false) + correspondence + direct oracle",
-             text="Theorem: soundness and completeness of the per-edge check by induction over the edge list, permutation invariance; model pinned on graphs with assigned defined/undefined types.",
+             text="Theorems: soundness and completeness of the per-edge check by induction over the edge list, permutation invariance, and invariance under every injective renaming of the nodes (names are opaque); model pinned on graphs with assigned defined/undefined types.",
              note="single-port leaf graphs as in the property", ref="6 C09"),
  "C10": dict(tech="Coq proof (termination with a concrete quadratic fuel bound; frame, untouched and idempotence theorems) + correspondence + snapshot oracle with wall-clock guard",
-             text="Theorems: the work-list loop terminates on every multigraph within the concrete fuel the model runs with; only annotations change; names/kinds/edges/metadata/order preserved; a child unreachable from every Input is left exactly as it was; a second run changes nothing (two proved forms bracketing a container-only counterexample kept in the development).",
+             text="Theorems: the work-list loop terminates on every multigraph within the concrete fuel the model runs with; only annotations change; names/kinds/edges/metadata/order preserved; a child unreachable from every Input is left exactly as it was; inference commutes with every injective renaming of the nodes; a second run changes nothing (two proved forms bracketing a container-only counterexample kept in the development).",
              note="CPython wall-clock and array bytes observed by harness only", ref="6 C10"),
  "C11": dict(tech="Coq proof (from_list = path graph, naming scheme, NoDup names) + correspondence + direct oracle",
              text="Theorems about the model of from_list: node order and identity positions, naming scheme with counters, chain edges; class-name side conditions checked on the regenerated table.",
